@@ -408,6 +408,9 @@ func (p Param) String() string {
 		return s
 	}
 	var parts []string
+	if p.AnonVal > 0 {
+		parts = append(parts, fmt.Sprintf("(anonymous, before dig.In) sim.V%d?", p.AnonVal-1))
+	}
 	for _, f := range p.Fields {
 		parts = append(parts, f.String())
 	}
